@@ -158,14 +158,15 @@ CHECKS["C04"] = dict(engine="argkey", ref="DESIGN.md 5/C04",
           "and Canon, the canonical JSON TEXT of the documented encoding with keys ordered by code point; for every generated case TLC "
           "computes that text and checks presentation invariance and injectivity on the definition; the harness applies SHA-256 and "
           "compares with arg_hash of the real call presentation; equivalent presentations must hit one memoized result, type- or "
-          "context-different variants must miss, and the body must receive the bound values (ArgKeyMon via TraceArgKey)."),
+          "context-different variants must miss, and the body must receive the bound values (ArgKeyMon via TraceArgKey). The same comparison "
+          "is made for every call the repository's own test suite keys (recorded by a pytest plugin through external wrappers)."),
     technique="TLA+ reference definition of the canonical key text evaluated by TLC per case (+ laws) compared with the implementation's hash; TLC trace validation of hit/miss behaviour")
 CHECKS["C11"] = dict(engine="codec", ref="DESIGN.md 5/C11",
     text=("Codec.tla defines Wire(m), the wire document of an abstract memento (fixed field names, typed {type,value} arguments, Z suffix, "
           "key#version content key) and checks on the definition that the typed encoding determines the argument; for every generated "
           "memento TLC emits the expected document; the real memento is encoded as the metadata source does, parsed with a strict JSON "
           "parser, compared structurally with TLC's document, decoded and compared field by field, and its argument hash recomputed; "
-          "CodecMon (TraceCodec) decides."),
+          "CodecMon (TraceCodec) decides. The mementos the repository's own test suite encodes (recorded by a pytest plugin through external wrappers) are validated the same way."),
     technique="TLA+ reference definition of the wire document evaluated by TLC per memento, compared with the implementation's output; TLC trace validation of round-trip facts")
 
 CHECKS["C12"] = dict(engine="names", ref="DESIGN.md 5/C12",
